@@ -266,7 +266,13 @@ def space_sets(index: RepoIndex, rep, rule: str) -> None:
             wanted.append(('self._grid_object_types', {'object_types', 'elt:Hidden'},
                            'observation cell types do not include Hidden',
                            'obs types include Hidden'))
+        from .c03 import shared_class_attributes
+        shared_class_attributes(index, rep, rule, only=(cname,))
         for attr, atoms, msg, label in wanted:
+            if attr not in st and any(
+                    isinstance(x, ast.AugAssign) and src(x.target) == attr
+                    for x in ast.walk(init.node)):
+                continue        # updated in place only: reported by the rule above
             d = den(attr)
             if d is None:
                 raise AnalysisError(f'{cname}.__init__: `{attr} = '
